@@ -3,7 +3,8 @@
 Three kinds of cases (all lines are str ending in one "\\n"; bytes runs encode them as UTF-8):
 
   {"kind": "pair", "old": [...], "new": [...], "differ": "lcs" | "difflib" | "diff-e",
-   "style": 0..7, "bytes": bool, "form": "list" | "iter" | "gen" | "tuple"}
+   "style": 0..7, "bytes": bool, "form": "list" | "iter" | "gen" | "tuple",
+   "nofinal": bool}       # the script's last line is given without its newline
       the script is derived from (old, new) by the harness's own differ (model/c18_eddiff.py;
       ``style`` varies the spelling: N vs N,N, change as delete+append, one line per command) or
       by /usr/bin/diff -e; patch_lines(old, patches_from_ed_script(script)) must give new.
@@ -80,7 +81,9 @@ POOL = ["a\n", "b\n", "c\n", "..\n", " .\n", ". \n", "1a\n", "2,3d\n", "\n", "é
         # a line ends at "\n" and nowhere else: characters that str/bytes.splitlines() would also
         # break at are ordinary text inside a line
         "p\x0cq\n", "\x0c.\n", "x\ry\n", "z\r\n", "\x0b\n", "u\x85v\n", "\u2028w\n", "s\x1ct\x1du\x1e\n",
-        ".\r\n", "3d\r\n"]
+        ".\r\n", "3d\r\n",
+        # a dot next to non-ASCII text is text, also for a reader that drops what it cannot decode
+        "\u2026.\n", ".\u00e9\n", "\u00e9.\u6f22\n"]
 FORMS = ("list", "iter", "gen", "tuple")
 DIFFERS = ("lcs", "difflib", "diff-e")
 
@@ -89,8 +92,8 @@ DIFFERS = ("lcs", "difflib", "diff-e")
 # exceptions are the ones DESIGN.md names: a command without any number (ed would use the current
 # line, which a stateless patch list does not have) and "N,Ma" (rejected explicitly by the library).
 BAD_LETTERS = ["b", "o", "h", "A", "C", "D", "B", "_", "ac", "aa", "é"]
-TRAIL = [" ", "x", "=", ".", "\r", " 1", "\t", "!", "1"]
-LEAD = ["x", "#", "a", "d", "=", "_"]
+TRAIL = [" ", "x", "=", ".", "\r", " 1", "\t", "!", "1", "\u00e9", "\u2026"]
+LEAD = ["x", "#", "a", "d", "=", "_", "\u00e9"]
 CORRUPTIONS = {
     # class: number of variants
     "bad-letter": len(BAD_LETTERS),
@@ -181,6 +184,11 @@ def check_pair(case, plan=None):
     enc = encoder(case)
     form = case.get("form", "list")
     eold, enew, escript = [enc(l) for l in old], [enc(l) for l in new], [enc(l) for l in script]
+    if case.get("nofinal") and escript:
+        # a script whose last line lacks its newline (a file without a final newline read with
+        # readlines(); the library documents both '.' and '.\n' as terminators)
+        escript[-1] = escript[-1][:-1]
+        labels.append("script-without-final-newline")
 
     # the triples, one by one
     triples = list(patches_from_ed_script(as_form(escript, form)))
@@ -436,7 +444,7 @@ def gen_pair(draw, differs=("lcs", "lcs", "difflib")):
     old, new = draw(gen_old_new())
     return {"kind": "pair", "old": old, "new": new, "differ": draw(st.sampled_from(differs)),
             "style": draw(st.integers(0, 15)), "bytes": draw(st.booleans()),
-            "form": draw(st.sampled_from(FORMS))}
+            "form": draw(st.sampled_from(FORMS)), "nofinal": draw(st.sampled_from([False, False, False, True]))}
 
 
 @st.composite
@@ -507,7 +515,8 @@ def enum_pairs(maxlen):
                         for b in (False, True):
                             k += 1
                             yield {"kind": "pair", "old": old, "new": new, "differ": differ,
-                                   "style": style, "bytes": b, "form": FORMS[k % 4]}
+                                   "style": style, "bytes": b, "form": FORMS[k % 4],
+                                   "nofinal": k % 5 == 0}
     return gen
 
 
